@@ -30,7 +30,7 @@ def runs_slice(tier, streams=False):
     return [{"world": "slice", "n": n, "opts": o}, {"world": "slice", "n": n // 3, "opts": o, "profile": "chk", "seed_off": 11}]
 
 
-DERIVE_OPS = ["s.sub", "s.gsl", "s.off", "s.split", "s.ref", "s.arr", "s.s2a", "s.aref", "s.toslice", "s.refat", "s.guard", "s.new"]
+DERIVE_OPS = ["s.bv", "s.sub", "s.gsl", "s.off", "s.split", "s.ref", "s.arr", "s.s2a", "s.aref", "s.toslice", "s.refat", "s.guard", "s.new"]
 
 PROPS = {
     "C19": {
